@@ -11,7 +11,8 @@
  *   AO role ox oy | AD role                same alpha map again at another origin | detach it
  *   T src|mask tx ty | P src|mask repeat   pixman_image_set_transform (translation) | _set_repeat
  *   (A, AO, AD, C, F, T, P may be repeated in any order: S logs the FINAL properties)
- *   C dst|src|mask n (x1 y1 x2 y2)*        pixman_image_set_clip_region32 (n = -1: NULL)
+ *   C dst|src|mask n (x1 y1 x2 y2)*        pixman_image_set_clip_region32 (n = -1: NULL); C16: the 16-bit setter
+ *   CA src|mask n (x1 y1 x2 y2)*           clip region on that image's alpha map (flags off: inert)
  *   F src|mask clip_sources client_clip    pixman_image_set_source_clipping / _set_has_client_clip
  *   G id fmt w h ox oy seed                glyph id (image + origin) inserted into the glyph cache
  *   S                                      log the Setup event
@@ -296,7 +297,7 @@ main (int argc, char **argv)
 	    fc_read_ints (in, v, 1);
 	    pixman_image_set_repeat (simg[r], (pixman_repeat_t)v[0]);
 	}
-	else if (!strcmp (cmd, "C"))
+	else if (!strcmp (cmd, "C") || !strcmp (cmd, "C16"))
 	{
 	    int r, n;
 	    if (fscanf (in, "%15s", role) != 1) return 3;
@@ -305,7 +306,25 @@ main (int argc, char **argv)
 	    if (n > 64) return 3;
 	    if (n > 0)
 		fc_read_ints (in, vals, 4 * n);
-	    fc_set_clip (r == 0 ? dst.img : simg[r], &cst[r], n, vals);
+	    if (cmd[1])
+		fc_set_clip16 (r == 0 ? dst.img : simg[r], &cst[r], n, vals);
+	    else
+		fc_set_clip (r == 0 ? dst.img : simg[r], &cst[r], n, vals);
+	}
+	else if (!strcmp (cmd, "CA"))
+	{
+	    /* CA src|mask n boxes: clip region on the role's ALPHA MAP (its clip_sources / client_clip stay off, so the
+	     * clip takes no part in any region); n = -1: NULL */
+	    int r, n;
+	    fc_clipstate_t tmp;
+	    if (fscanf (in, "%15s", role) != 1) return 3;
+	    r = role_of (role);
+	    fc_read_ints (in, &n, 1);
+	    if (n > 64) return 3;
+	    if (n > 0)
+		fc_read_ints (in, vals, 4 * n);
+	    if (r != 0 && salpha[r])
+		fc_set_clip (salpha[r], &tmp, n, vals);
 	}
 	else if (!strcmp (cmd, "F"))
 	{
